@@ -146,6 +146,15 @@ class Gen:
 
     def log(self, nv, depth):
         r = self.r
+        if self.ints and r.chance(1, 6):
+            # equality comparisons of one bounded integer variable with several constants
+            # (-> CondLinConEQ map per variable, unary encoding, Many2OneLink)
+            j = r.choice(self.ints)
+            ks = [r.rint(-1, 3) for _ in range(r.rint(2, 3))]
+            es = [('eq', ('v', j), ('n', k)) for k in dict.fromkeys(ks)]
+            if len(es) == 1:
+                return es[0]
+            return ('or', es[0], es[1]) if len(es) == 2 else ('exists', es)
         if depth <= 0 or r.chance(1, 4):
             return self.rel(nv, 0)
         k = r.below(11)
@@ -278,6 +287,14 @@ class Gen:
         # pool of shared subexpressions
         pool = [self.num(nv, r.rint(1, depth)) for _ in range(r.rint(1, 3))]
         lpool = [self.log(nv, r.rint(0, depth - 1)) for _ in range(r.rint(1, 2))]
+        # AMPL defined variables: a pool entry becomes a common expression referenced from several items
+        if r.chance(1, 3):
+            for k in range(r.rint(1, 2)):
+                i = r.below(len(pool))
+                if pool[i][0] == 'dv':
+                    continue
+                m.dvars.append({'lin': self.lin(nv, 1, 2) if r.chance(1, 2) else {}, 'nl': pool[i], 'name': 'dv%d' % (len(m.dvars) + 1)})
+                pool[i] = ('dv', len(m.dvars) - 1)
 
         def nlpart():
             k = r.below(6)
@@ -316,7 +333,7 @@ class Gen:
             else:
                 e = self.log(nv, depth)
             m.lcon(e)
-        for i in range(r.rint(1, 2) if r.chance(1, 4) else 1):
+        for i in range(r.rint(1, 2) if r.chance(1, 4) else (0 if r.chance(1, 12) else 1)):
             m.obj(r.choice(['min', 'max']), self.lin(nv, 1, 3), nlpart() if r.chance(1, 2) else None)
         # SOS via suffixes
         self.sos_groups = {}
